@@ -128,7 +128,8 @@ func identity(n int) []int {
 	return p
 }
 
-// mapClasses: the classes of the relabelled graph (new vertex i is old pi[i]), each class ascending.
+// mapClasses: the classes of the relabelled graph (new vertex i is old pi[i]). A class is a set: it is listed in the order the relabelling
+// gives it (ascending only under the identity), which the documented interface does not restrict.
 func mapClasses(cls [][]int, pi []int) [][]int {
 	if len(cls) == 0 {
 		return nil
@@ -143,7 +144,6 @@ func mapClasses(cls [][]int, pi []int) [][]int {
 		for i, v := range c {
 			d[i] = inv[v]
 		}
-		sort.Ints(d)
 		out[k] = d
 	}
 	return out
@@ -420,8 +420,26 @@ func hardGraphs() map[string]gJ {
 	h["3xpetersen"] = disjointUnion(h["2xpetersen"], h["petersen"])
 	h["2xgp83"] = disjointUnion(h["gp83"], h["gp83"])
 	h["petersen+dodeca"] = disjointUnion(h["petersen"], h["dodeca"])
+	// 2-regular graphs made of cycles of different lengths: ONE cell of >= 24 vertices that refinement cannot split, several kinds of orbit
+	// in it (long sorts of certificate segments and of merged cells; target cells with orbits of different sizes)
+	union := func(parts ...graph.Graph) gJ {
+		u := gJ{N: 0}
+		for _, p := range parts {
+			u = disjointUnion(u, gJOf(p))
+		}
+		return u
+	}
+	h["c7+c8+c9"] = union(graph.Cycle(7), graph.Cycle(8), graph.Cycle(9))
+	h["c5+c6+c7+c8"] = union(graph.Cycle(5), graph.Cycle(6), graph.Cycle(7), graph.Cycle(8))
+	h["6xc5"] = union(graph.Cycle(5), graph.Cycle(5), graph.Cycle(5), graph.Cycle(5), graph.Cycle(5), graph.Cycle(5))
+	h["k3+c4+c4"] = union(graph.CompleteGraph(3), graph.Cycle(4), graph.Cycle(4))
+	h["k3+c4+c5"] = union(graph.CompleteGraph(3), graph.Cycle(4), graph.Cycle(5))
+	h["c3+c4+c5+c5"] = union(graph.Cycle(3), graph.Cycle(4), graph.Cycle(5), graph.Cycle(5)) // its complement: the smallest known witness of the current-best orbit defect (fixed in 533abb7)
+	h["c3+c5+c5+c6"] = union(graph.Cycle(3), graph.Cycle(5), graph.Cycle(5), graph.Cycle(6))
+	h["c4+c5+c6+c7"] = union(graph.Cycle(4), graph.Cycle(5), graph.Cycle(6), graph.Cycle(7))
+	h["3xc3+2xc4+c9"] = union(graph.Cycle(3), graph.Cycle(3), graph.Cycle(3), graph.Cycle(4), graph.Cycle(4), graph.Cycle(9))
 	// complements: dense regular graphs whose refinement counts are >= 2
-	for _, nm := range []string{"petersen", "snark3", "snark5", "2xpetersen", "2xsnark3", "3xpetersen", "2xgp83", "c12", "rook44", "cube4", "shrikhande", "dodeca", "circ25", "gp125", "kneser72"} {
+	for _, nm := range []string{"c3+c4+c5+c5", "c3+c5+c5+c6", "c4+c5+c6+c7", "c7+c8+c9", "c5+c6+c7+c8", "6xc5", "k3+c4+c5", "3xc3+2xc4+c9", "petersen", "snark3", "snark5", "2xpetersen", "2xsnark3", "3xpetersen", "2xgp83", "c12", "rook44", "cube4", "shrikhande", "dodeca", "circ25", "gp125", "kneser72"} {
 		g := h[nm]
 		h["co-"+nm] = gJOf(graph.ComplementDense(graphOfJ("dense", g)))
 	}
